@@ -71,7 +71,8 @@ int main(void) {
       case 'C': close(c.arg); reply(0, 0, 0); break;
       case 'X': reply(0, in_hash, in_total); _exit(c.arg);
       case 'K': reply(0, in_hash, in_total); signal(c.arg, SIG_DFL); kill(getpid(), c.arg); for (;;) pause();
-      case 'P': reply(0, in_hash, in_total); break;
+      case 'P': reply(0, in_hash, in_total); break; /* time passes: the child lingers without touching its streams */
+      case 'I': signal(c.arg, SIG_IGN); reply(0, in_hash, in_total); break; /* from now on the child ignores this signal */
       default: _exit(94);
     }
   }
